@@ -140,7 +140,23 @@ void reb_simulation_move_to_hel(struct reb_simulation* const r){
     if (N_real>0){
 	    struct reb_particle* restrict const particles = r->particles;
         struct reb_particle hel = r->particles[0];
-        // Note: Variational particles will not be affected.
+        // The shift is linear in the coordinates: variational particles (of any order) 
+        // of a full set are shifted by the variation of particle 0.
+        // A variation of a single test particle has nothing to shift.
+        for (int v=0;v<r->N_var_config;v++){
+            if (r->var_config[v].testparticle<0){
+                struct reb_particle* restrict const particles_var = particles + r->var_config[v].index;
+                const struct reb_particle hel_var = particles_var[0];
+                for (int i=0;i<N_real;i++){
+                    particles_var[i].x  -= hel_var.x;
+                    particles_var[i].y  -= hel_var.y;
+                    particles_var[i].z  -= hel_var.z;
+                    particles_var[i].vx -= hel_var.vx;
+                    particles_var[i].vy -= hel_var.vy;
+                    particles_var[i].vz -= hel_var.vz;
+                }
+            }
+        }
         for (int i=1;i<N_real;i++){
             particles[i].x  -= hel.x;
             particles[i].y  -= hel.y;
